@@ -91,6 +91,10 @@ impl Worker {
         s[n.saturating_sub(1500)..].to_string()
     }
 
+    pub fn stderr_tail_pub(&self) -> String {
+        self.stderr_tail()
+    }
+
     /// Execute one request.  After Died/Timeout a fresh worker is already running.
     pub fn exec(&mut self, req: &Value, timeout: Duration) -> Exec {
         // a worker that retired itself after the previous case (exit 77: it had left a real
